@@ -529,8 +529,9 @@ def pendingEvidence (p : Pool) (maxBytes : Int) : List Ev × Nat :=
 /-! The system: stores that grow + the pool; one `Op` per mutex-protected call. -/
 
 structure Sys where
-  storeH : Int
+  storeH : Int                              -- block store height (and what the state store can answer)
   pool : Pool
+  stateH : Int                              -- `LastBlockHeight` of the state the state store would `Load()`
   dead : Bool := false                      -- a panic killed the process; the DB content stays
 
 inductive Op where
@@ -540,12 +541,19 @@ inductive Op where
   | update (h : Int) (evs : List Ev)       -- `Update(state at h, evs)`
   | report (v1 v2 : Vote)
   | restart                                 -- `NewPool` on the same DB, state from the state store
+  | saveBlock (h : Int)                     -- `blockStore.SaveBlock` (consensus, before `ApplyBlock`)
+  | saveState (h : Int)                     -- `store.Save(state)` at the end of `ApplyBlock`
+  | replay                                  -- handshake at start-up: stored blocks above the saved
+                                            -- state are applied with `sm.EmptyEvidencePool{}`
 
 def canGrow (s : Sys) (h : Int) : Bool := decide (s.storeH ≤ h) && decide (h ≤ c.blocks.length)
 
 /-- one call on a live process -/
 def stepLive (s : Sys) : Op → Sys × Res
-  | .grow h => if canGrow c s h then ({ s with storeH := h }, .ok) else (s, .ok)
+  | .grow h => if canGrow c s h then ({ s with storeH := h, stateH := h }, .ok) else (s, .ok)
+  | .saveBlock h => if canGrow c s h then ({ s with storeH := h }, .ok) else (s, .ok)
+  | .saveState h => if h ≤ s.storeH then ({ s with stateH := h }, .ok) else (s, .ok)
+  | .replay => if s.stateH < s.storeH then ({ s with stateH := s.storeH }, .ok) else (s, .ok)
   | .add e => let (p, r) := addEvidence c s.storeH s.pool e; ({ s with pool := p }, r)
   | .check l => let (p, r) := checkEvidence c s.storeH s.pool l; ({ s with pool := p }, r)
   | .update h evs =>
@@ -555,7 +563,7 @@ def stepLive (s : Sys) : Op → Sys × Res
     else (s, .ok)
   | .report v1 v2 => ({ s with pool := report s.pool v1 v2 }, .ok)
   | .restart =>
-    ({ s with pool := newPool c (stateAt c s.storeH) s.pool.pending s.pool.committed, dead := false }, .ok)
+    ({ s with pool := newPool c (stateAt c s.stateH) s.pool.pending s.pool.committed, dead := false }, .ok)
 
 /-- a panic in `Update` kills the process: afterwards only `restart` (a new pool on the same
 evidence DB) and the stores' own growth do anything -/
@@ -563,6 +571,7 @@ def step (s : Sys) (o : Op) : Sys × Res :=
   match s.dead, o with
   | true, .restart => stepLive c s o
   | true, .grow _ => stepLive c s o
+  | true, .replay => stepLive c s o
   | true, _ => (s, .dead)
   | false, _ => stepLive c s o
 
@@ -585,10 +594,27 @@ def prepare (st : State) (e : Ev) (peerHeight : Int) : Bool :=
   else if peerHeight - e.height > st.maxAgeBlocks then false
   else true
 
-def initSys (h0 : Int) : Sys := { storeH := h0, pool := newPool c (stateAt c h0) [] [] }
+def initSys (h0 : Int) : Sys := { storeH := h0, stateH := h0, pool := newPool c (stateAt c h0) [] [] }
 
 def run (s : Sys) : List Op → Sys
   | [] => s
   | o :: rest => run (step c s o).1 rest
+
+/-! ### ApplyBlock (state/execution.go) as far as the pool is concerned, with crash points -/
+
+/-- The tail of consensus' `finalizeCommit` for block `h` carrying `evs`, once the block is in the
+block store, the process dying after `k` of its pool-relevant steps: a validation of the block
+(`BlockExecutor.ValidateBlock` → `CheckEvidence`, which consensus runs before — and the code in
+general more than once — per block; a failure stops it), then inside `ApplyBlock`
+`evpool.Update(state, evs)` and `store.Save(state)` — in this order. `k ≥ 3` = no crash. -/
+def applyBlockSteps (s : Sys) (h : Int) (evs : List Ev) (k : Nat) : Sys :=
+  if k = 0 then s
+  else
+    let s1 := (step c s (.check evs)).1
+    if (step c s (.check evs)).2 ≠ .ok then s1       -- ValidateBlock failed: the error is returned
+    else if k = 1 then s1
+    else
+      let s2 := (step c s1 (.update h evs)).1
+      if k = 2 then s2 else (step c s2 (.saveState h)).1
 
 end Tmv.Evidence
